@@ -27,7 +27,12 @@ def gen_name(rnd, medium, maxlen=12):
     n = rnd.choice([1, 2, 3, 5, 7, 8, 8, 8, 9, 10, 12]) if medium == "disk" else rnd.choice([0, 1, 2, 5, 7, 8, 8, 9, 12])
     n = min(n, maxlen)
     alphabet = NAMECH if medium == "disk" else NAMECH + PUNCT
-    return "".join(rnd.choice(alphabet) for _ in range(n))
+    name = "".join(rnd.choice(alphabet) for _ in range(n))
+    if medium != "disk" and n and rnd.random() < 0.08:
+        # a character of the upper half of the byte range: one byte in the 8-byte name field, not its UTF-8 form (wave 10, C14-N)
+        i = rnd.randrange(n)
+        name = name[:i] + rnd.choice("\xc9\x80\xa3") + name[i + 1:]
+    return name
 
 
 def gen_file(rnd, medium, length=None, unique=None, maxname=12):
